@@ -16,7 +16,7 @@ Fixpoint enc (ww : Z) (f : fmt) (last : option Z) (data : list Z) : list Z * lis
   end.
 
 Lemma same_changed last v : changed last v = true -> same last v = false.
-Proof. destruct last as [l|]; cbn; [|reflexivity]. rewrite Z.eqb_sym. now destruct (v =? l). Qed.
+Proof. destruct last as [l|]; cbn [changed same]; [|reflexivity]. rewrite (Z.eqb_sym l v). destruct (v =? l); cbn; congruence. Qed.
 
 Lemma row_fold ww f data : forall wd dd last,
   fst (fold_left (row_step ww f) data (wd, dd, last)) = (wd ++ fst (enc ww f last data), dd ++ snd (enc ww f last data)).
